@@ -318,6 +318,11 @@ func (g *gen) loopHeader(b *ssa.BasicBlock, li *loopInfo, in State, rc string) (
 			// has) is DROPPED, never assumed: what it used to carry is then missing and the obligations that
 			// relied on it fail, instead of the whole function going stale.
 			g.ctx.note(fmt.Sprintf("loop %d invariant %s of %s dropped: %v", li.ordinal, cl.Label, g.fnKey, err))
+			if strings.Contains(err.Error(), "unknown name") {
+				// a local the invariant names no longer exists (renamed?): what fails downstream in this function
+				// is a consequence of the contract being out of date, not evidence against the code
+				g.staleNames = append(g.staleNames, fmt.Sprintf("loop %d invariant %s: %v", li.ordinal, cl.Label, err))
+			}
 			continue
 		}
 		g.obligeClause("invariant", fmt.Sprintf("%s.loop%d.inv.%s.entry", g.fnKey, li.ordinal, cl.Label), cl, rc, t)
